@@ -421,6 +421,10 @@ func (g *pgen) weights() []interface{} {
 		w["let"] = 3
 	case "isset":
 		w["issetp"] = 8
+	case "fields":
+		w["print"] = 14
+		w["issetp"] = 3
+		w["let"] = 3
 	case "calls":
 		w["call"] = 14
 		w["print"] = 3
